@@ -90,6 +90,7 @@ static const char *oc_names[OC_N] = { "setaffinity", "getaffinity", "set_mempoli
 static long os_rc[OC_N]; static int os_errno[OC_N];
 static int os_mempol_mode; static hwloc_bitmap_t os_mempol_mask;
 static int os_page_status; static int os_cpu; static unsigned long os_maxnodes = 64;
+static unsigned long os_nrcpus = 256;   /* sched_getaffinity needs a buffer of at least that many bits */
 static int os_pm_unsupported;            /* MPOL_PREFERRED_MANY answered EINVAL (old kernel) */
 
 static long raw_syscall6(long nr, long a, long b, long c, long d, long e, long f)
@@ -118,6 +119,7 @@ int sched_getaffinity(pid_t pid, size_t sz, cpu_set_t *mask)
   unsigned i;
   if (!os_intercept) { long r = raw_syscall6(SYS_sched_getaffinity, pid, (long)sz, (long)mask, 0, 0, 0); return r < 0 ? -1 : 0; }
   tr_add(" getaffinity(%s)", who_name(pid));
+  if (8 * sz < os_nrcpus) { errno = EINVAL; return -1; }   /* like a kernel with that many possible CPUs */
   if (os_rc[OC_GETAFF] < 0) return (int)os_answer(OC_GETAFF);
   memset(mask, 0, sz);
   for (i = 0; i < 8 * sz; i++) if (hwloc_bitmap_isset(os_aff, i)) ((unsigned long *)mask)[i / 64] |= 1UL << (i % 64);
@@ -244,7 +246,18 @@ static void print_info(hwloc_topology_t t)
   fputs(" ccs=", stdout); hwv_pset(stdout, hwloc_topology_get_complete_cpuset(t));
   fputs(" ns=", stdout); hwv_pset(stdout, hwloc_topology_get_topology_nodeset(t));
   fputs(" cns=", stdout); hwv_pset(stdout, hwloc_topology_get_complete_nodeset(t));
-  printf(" this=%d nodes=", hwloc_topology_is_thissystem(t));
+  {
+    struct hwloc_binding_hooks *h = &((struct hwloc_topology *)t)->binding_hooks; unsigned long m = 0;
+#define Q(i, slot) if (h->slot) m |= 1UL << (i)
+    Q(0, set_thisproc_cpubind); Q(1, get_thisproc_cpubind); Q(2, set_thisthread_cpubind); Q(3, get_thisthread_cpubind);
+    Q(4, set_proc_cpubind); Q(5, get_proc_cpubind); Q(6, set_thread_cpubind); Q(7, get_thread_cpubind);
+    Q(8, get_thisproc_last_cpu_location); Q(9, get_thisthread_last_cpu_location); Q(10, get_proc_last_cpu_location);
+    Q(11, set_thisproc_membind); Q(12, get_thisproc_membind); Q(13, set_thisthread_membind); Q(14, get_thisthread_membind);
+    Q(15, set_proc_membind); Q(16, get_proc_membind); Q(17, set_area_membind); Q(18, get_area_membind); Q(19, get_area_memlocation);
+    Q(20, alloc); Q(21, alloc_membind);
+#undef Q
+    printf(" this=%d hooks=%lx nodes=", hwloc_topology_is_thissystem(t), m);
+  }
   while ((o = hwloc_get_next_obj_by_type(t, HWLOC_OBJ_NUMANODE, o)) != NULL) { printf("%u/", o->os_index); hwv_pset(stdout, o->cpuset); fputc(';', stdout); }
   fputc('\n', stdout);
 }
@@ -362,6 +375,7 @@ int main(void)
       else if (!strcmp(a1, "pages")) os_page_status = atoi(a2);
       else if (!strcmp(a1, "cpu")) os_cpu = atoi(a2);
       else if (!strcmp(a1, "maxnodes")) os_maxnodes = strtoul(a2, NULL, 0);
+      else if (!strcmp(a1, "nrcpus")) os_nrcpus = strtoul(a2, NULL, 0);
       else if (!strcmp(a1, "pm_unsupported")) os_pm_unsupported = atoi(a2);
       continue;
     }
@@ -376,15 +390,24 @@ int main(void)
 #ifndef HWV_LIVE
       else if (!strcmp(a1, "os")) {
         static int warmed;
-        os_intercept = 1;
-        if (!warmed && hwloc_topology_is_thissystem(t)) {
-          /* fill the function-static caches of topology-linux.c (kernel cpumask size,
-           * kernel max numnodes) so that later calls issue a deterministic number of syscalls */
-          hwloc_bitmap_t b = hwloc_bitmap_alloc(); hwloc_membind_policy_t p;
-          hwloc_get_cpubind(t, b, HWLOC_CPUBIND_THREAD); hwloc_get_membind(t, b, &p, HWLOC_MEMBIND_THREAD | HWLOC_MEMBIND_BYNODESET);
-          hwloc_bitmap_free(b); warmed = 1;
+        if (!warmed) {
+          /* fill the function-static caches of topology-linux.c (kernel cpumask size, kernel max
+           * numnodes) on a private 1-PU topology, so that what they hold depends on the scripted
+           * kernel only and later calls issue a deterministic number of system calls */
+          hwloc_topology_t t2; hwloc_bitmap_t b = hwloc_bitmap_alloc(); hwloc_membind_policy_t p;
+          char *saved = getenv("HWLOC_THISSYSTEM") ? strdup(getenv("HWLOC_THISSYSTEM")) : NULL;
+          unsetenv("HWLOC_THISSYSTEM");
+          os_intercept = 0;
+          hwloc_topology_init(&t2); hwloc_topology_set_synthetic(t2, "pu:1"); hwloc_topology_set_flags(t2, HWLOC_TOPOLOGY_FLAG_IS_THISSYSTEM);
+          hwloc_topology_load(t2);
+          os_intercept = 1; tr_reset();
+          hwloc_get_cpubind(t2, b, HWLOC_CPUBIND_THREAD); hwloc_get_membind(t2, b, &p, HWLOC_MEMBIND_THREAD | HWLOC_MEMBIND_BYNODESET);
+          os_intercept = 0;
+          hwloc_topology_destroy(t2); hwloc_bitmap_free(b); warmed = 1;
+          if (saved) { setenv("HWLOC_THISSYSTEM", saved, 1); free(saved); }
           printf("W%s\n", trace_len ? trace : ""); tr_reset();
         }
+        os_intercept = 1;
       }
 #endif
       continue;
